@@ -60,6 +60,8 @@ def _variants(K, vec):
                 (a, X.ExprMem(kids[0], 32, other if a.segm is None else None), False, 'segm')]
     elif K == 'ExprOp':
         out += [(a, X.ExprOp('^', *kids), False, 'op'), (a, X.ExprOp(a.op, *(list(kids) + [other])), False, 'arity')]
+        if len(kids) >= 2 and not (kids[0] == kids[-1]):
+            out.append((a, X.ExprOp(a.op, *reversed(kids)), False, 'order'))
         for i in range(len(kids)):
             ch = list(kids); ch[i] = other
             out.append((a, X.ExprOp(a.op, *ch), False, 'child%d' % i))
